@@ -187,14 +187,190 @@ theorem run_plain (s : Str) (hs : ∀ c ∈ s, plainChar c = true) (a : Str) (st
     rw [show c :: r = [c] ++ r from rfl, runM_append_of this, ih (fun c h => hs c (by simp [h]))]
     simp
 
-/-! ### comments -/
+/-! ### comments: the `--` repair of `XmlStream.comment` -/
 
-/-- comment text the writer can emit safely [15]: no `--`, not ending in `-` (`d` = a `-` has just been written) -/
-def cOk : Nat → Str → Bool
-  | d, [] => d == 0
-  | d, c :: r => if c = '-' then (d == 0 && cOk 1 r) else cOk 0 r
+/-- no run of three dashes, given `k` dashes immediately before -/
+def ok3 : Nat → Str → Bool
+  | _, [] => true
+  | k, c :: r => if c = '-' then (decide (k < 2) && ok3 (k + 1) r) else ok3 0 r
 
-def commentOk (s : Str) : Bool := cOk 0 s
+/-- no run of two dashes, given `k` dashes immediately before -/
+def ok2 : Nat → Str → Bool
+  | _, [] => true
+  | k, c :: r => if c = '-' then (decide (k < 1) && ok2 (k + 1) r) else ok2 0 r
+
+theorem replaceDD_head (t : Str) : (replaceDD t).head? = t.head? := by
+  unfold replaceDD
+  split <;> simp
+
+theorem ok3_nondash (k : Nat) (l : Str) (h : l.head? ≠ some '-') : ok3 k l = ok3 0 l := by
+  cases l with
+  | nil => simp [ok3]
+  | cons x r =>
+    have hx : x ≠ '-' := by intro e; subst e; simp at h
+    simp [ok3, hx]
+
+theorem ok2_nondash (k : Nat) (l : Str) (h : l.head? ≠ some '-') : ok2 k l = ok2 0 l := by
+  cases l with
+  | nil => simp [ok2]
+  | cons x r =>
+    have hx : x ≠ '-' := by intro e; subst e; simp at h
+    simp [ok2, hx]
+
+theorem ok3_mono (l : Str) : ok3 1 l = true → ok3 0 l = true := by
+  cases l with
+  | nil => simp [ok3]
+  | cons x r =>
+    by_cases hx : x = '-'
+    · subst hx
+      simp only [ok3, if_true]
+      intro h
+      simp at h ⊢
+      cases r with
+      | nil => simp [ok3]
+      | cons y r' =>
+        by_cases hy : y = '-'
+        · subst hy; simp [ok3] at h
+        · simp [ok3, hy] at h ⊢; exact h
+    · simp [ok3, hx]
+
+/-- after one `replace('--', '- -')` there is no run of three dashes (even after one more dash before it) -/
+theorem ok3_replaceDD (t : Str) : ok3 1 (replaceDD t) = true := by
+  induction t using replaceDD.induct with
+  | case1 r ih =>
+    simp only [replaceDD]
+    simp [ok3, ih]
+  | case2 c r hnot ih =>
+    rw [replaceDD]
+    · by_cases hc : c = '-'
+      · subst hc
+        have hr : r.head? ≠ some '-' := by
+          intro e
+          cases r with
+          | nil => simp at e
+          | cons y r' => simp at e; subst e; exact hnot r' rfl rfl
+        have hh : (replaceDD r).head? ≠ some '-' := by rw [replaceDD_head]; exact hr
+        simp only [ok3, if_true]
+        rw [ok3_nondash 2 _ hh]
+        simp [ok3_mono _ ih]
+      · simp [ok3, hc, ok3_mono _ ih]
+    · exact hnot
+  | case3 => simp [replaceDD, ok3]
+
+theorem ok3_two {r : Str} (h : ok3 2 r = true) : r.head? ≠ some '-' ∧ ok3 0 r = true := by
+  cases r with
+  | nil => simp [ok3]
+  | cons y r' =>
+    by_cases hy : y = '-'
+    · subst hy; simp [ok3] at h
+    · refine ⟨by simp [hy], ?_⟩; simpa [ok3, hy] using h
+
+/-- a second `replace` leaves no `--` at all -/
+theorem ok2_replaceDD (t : Str) : ok3 0 t = true → ok2 0 (replaceDD t) = true := by
+  induction t using replaceDD.induct with
+  | case1 r ih =>
+    intro h
+    have h2 : ok3 2 r = true := by simpa [ok3] using h
+    obtain ⟨hh, h0⟩ := ok3_two h2
+    have hh' : (replaceDD r).head? ≠ some '-' := by rw [replaceDD_head]; exact hh
+    simp only [replaceDD]
+    simp [ok2]
+    rw [ok2_nondash 1 _ hh']
+    exact ih h0
+  | case2 c r hnot ih =>
+    intro h
+    rw [replaceDD]
+    · by_cases hc : c = '-'
+      · subst hc
+        have hr : r.head? ≠ some '-' := by
+          intro e
+          cases r with
+          | nil => simp at e
+          | cons y r' => simp at e; subst e; exact hnot r' rfl rfl
+        have hh : (replaceDD r).head? ≠ some '-' := by rw [replaceDD_head]; exact hr
+        have h1 : ok3 1 r = true := by simpa [ok3] using h
+        rw [ok3_nondash 1 _ hr] at h1
+        simp only [ok2, if_true]
+        rw [ok2_nondash 1 _ hh]
+        simp [ih h1]
+      · have h0 : ok3 0 r = true := by simpa [ok3, hc] using h
+        simp [ok2, hc, ih h0]
+    · exact hnot
+  | case3 => intro _; simp [replaceDD, ok2]
+
+theorem ok2_hasDD (u : Str) : ok2 0 u = !hasDD u := by
+  induction u using hasDD.induct with
+  | case1 r => simp [hasDD, ok2]
+  | case2 c r hnot ih =>
+    rw [hasDD]
+    · by_cases hc : c = '-'
+      · subst hc
+        have hr : r.head? ≠ some '-' := by
+          intro e
+          cases r with
+          | nil => simp at e
+          | cons y r' => simp at e; subst e; exact hnot r' rfl rfl
+        simp only [ok2, if_true]
+        rw [ok2_nondash 1 _ hr]
+        simp [ih]
+      · simp [ok2, hc, ih]
+    · exact hnot
+  | case3 => simp [hasDD, ok2]
+
+theorem hasDD_replace_twice (t : Str) : hasDD (replaceDD (replaceDD t)) = false := by
+  have h := ok2_replaceDD (replaceDD t) (ok3_mono _ (ok3_replaceDD t))
+  rw [ok2_hasDD] at h
+  simpa using h
+
+/-- the `while` loop ends with no `--` left (two rounds always suffice) -/
+theorem hasDD_fixDD (f : Nat) (t : Str) : hasDD (fixDD (f + 2) t) = false := by
+  simp only [fixDD]
+  by_cases h0 : hasDD t = true
+  · rw [if_pos h0]
+    by_cases h1 : hasDD (replaceDD t) = true
+    · rw [if_pos h1]
+      have h2 := hasDD_replace_twice t
+      cases f with
+      | zero => simpa [fixDD] using h2
+      | succ f => simp [fixDD, h2]
+    · rw [if_neg h1]; simpa using h1
+  · rw [if_neg h0]; simpa using h0
+
+theorem mem_replaceDD (t : Str) : ∀ c ∈ replaceDD t, c ∈ t ∨ c = ' ' := by
+  induction t using replaceDD.induct with
+  | case1 r ih =>
+    intro c hc
+    simp only [replaceDD, List.mem_cons] at hc
+    rcases hc with rfl | rfl | rfl | hc
+    · simp
+    · simp
+    · simp
+    · rcases ih c hc with h | h
+      · left; simp [h]
+      · right; exact h
+  | case2 c r hnot ih =>
+    intro x hx
+    rw [replaceDD] at hx
+    · simp only [List.mem_cons] at hx
+      rcases hx with rfl | hx
+      · simp
+      · rcases ih x hx with h | h
+        · left; simp [h]
+        · right; exact h
+    · exact hnot
+  | case3 => simp [replaceDD]
+
+theorem mem_fixDD (f : Nat) (t : Str) : ∀ c ∈ fixDD f t, c ∈ t ∨ c = ' ' := by
+  induction f generalizing t with
+  | zero => intro c hc; left; simpa [fixDD] using hc
+  | succ f ih =>
+    intro c hc
+    simp only [fixDD] at hc
+    split at hc
+    · rcases ih _ c hc with h | h
+      · exact mem_replaceDD t c h
+      · right; exact h
+    · left; exact hc
 
 theorem digit_safe {x : Char} (h : isDigit x = true) : xmlChar x = true ∧ x ≠ '-' := by
   simp [isDigit] at h
@@ -245,60 +421,113 @@ theorem encodeChar_safe (c : Char) (hc : c ≠ '-') :
       · exact digit_safe (decimal_digits _ x hx)
       · exact semi
 
-theorem run_comment_safe0 (l acc : Str) (stk : List Str) (rd : Bool) (evs : List Event)
-    (h : ∀ x ∈ l, xmlChar x = true ∧ x ≠ '-') :
-    ∃ acc', runM ⟨.comment acc 0, stk, rd, evs⟩ l = some ⟨.comment acc' 0, stk, rd, evs⟩ := by
-  induction l generalizing acc with
-  | nil => exact ⟨acc, rfl⟩
-  | cons x r ih =>
-    obtain ⟨hx1, hx2⟩ := h x (by simp)
-    have : runM ⟨.comment acc 0, stk, rd, evs⟩ [x] = some ⟨.comment (x :: acc) 0, stk, rd, evs⟩ := by
-      simp [runM, step, hx1, hx2]
-    obtain ⟨a', ha⟩ := ih (x :: acc) (fun y hy => h y (by simp [hy]))
-    exact ⟨a', by rw [show x :: r = [x] ++ r from rfl, runM_append_of this, ha]⟩
+/-- comment text a parser accepts [15]: no `--`, not ending in `-` (`d` = a `-` has just been read) -/
+def cOk : Nat → Str → Bool
+  | d, [] => d == 0
+  | d, c :: r => if c = '-' then (d == 0 && cOk 1 r) else cOk 0 r
 
-theorem run_comment_safe (l acc : Str) (d : Nat) (hd : d ≤ 1) (stk : List Str) (rd : Bool) (evs : List Event)
-    (hne : l ≠ []) (h : ∀ x ∈ l, xmlChar x = true ∧ x ≠ '-') :
-    ∃ acc', runM ⟨.comment acc d, stk, rd, evs⟩ l = some ⟨.comment acc' 0, stk, rd, evs⟩ := by
-  cases l with
-  | nil => exact absurd rfl hne
-  | cons x r =>
-    obtain ⟨hx1, hx2⟩ := h x (by simp)
-    have hd' : d = 0 ∨ d = 1 := by omega
-    rcases hd' with rfl | rfl
-    · exact run_comment_safe0 _ _ _ _ _ h
-    · have : runM ⟨.comment acc 1, stk, rd, evs⟩ [x] = some ⟨.comment (x :: '-' :: acc) 0, stk, rd, evs⟩ := by
-        simp [runM, step, hx1, hx2]
-      obtain ⟨a', ha⟩ := run_comment_safe0 r (x :: '-' :: acc) stk rd evs (fun y hy => h y (by simp [hy]))
-      exact ⟨a', by rw [show x :: r = [x] ++ r from rfl, runM_append_of this, ha]⟩
-
-theorem run_comment_enc (s acc : Str) (d : Nat) (hd : d ≤ 1) (stk : List Str) (rd : Bool) (evs : List Event)
-    (h : cOk d s = true) :
-    ∃ acc', runM ⟨.comment acc d, stk, rd, evs⟩ (encodeL s) = some ⟨.comment acc' 0, stk, rd, evs⟩ := by
-  induction s generalizing acc d with
+theorem cOk_of_ok2 (u : Str) : ∀ d, d ≤ 1 → ok2 d u = true →
+    cOk d (u ++ [' ']) = true ∧ ((if u = [] then d = 0 else endsDash u = false) → cOk d u = true) := by
+  induction u with
   | nil =>
-    simp [cOk] at h; subst h; exact ⟨acc, rfl⟩
+    intro d _ _
+    refine ⟨by simp [cOk], ?_⟩
+    intro h; simp at h; simp [cOk, h]
   | cons c r ih =>
-    simp only [encodeL, List.flatMap_cons]
+    intro d hd h
+    by_cases hc : c = '-'
+    · subst hc
+      simp only [ok2, if_true, Bool.and_eq_true, decide_eq_true_eq] at h
+      obtain ⟨hd0, h1⟩ := h
+      have hd0' : d = 0 := by omega
+      subst hd0'
+      obtain ⟨a, b⟩ := ih 1 (by omega) h1
+      refine ⟨by simp [cOk, a], ?_⟩
+      intro he
+      simp only [List.cons_ne_nil, if_false] at he
+      simp only [cOk, if_true, beq_self_eq_true, Bool.true_and]
+      apply b
+      cases r with
+      | nil => simp [endsDash] at he
+      | cons y r' => simp [endsDash] at he ⊢; exact he
+    · simp only [ok2, hc, if_false] at h
+      obtain ⟨a, b⟩ := ih 0 (by omega) h
+      refine ⟨by simp [cOk, hc, a], ?_⟩
+      intro he
+      simp only [List.cons_ne_nil, if_false] at he
+      simp only [cOk, hc, if_false]
+      apply b
+      cases r with
+      | nil => simp
+      | cons y r' => simp [endsDash] at he ⊢; exact he
+
+theorem encodeL_xml (s : Str) : ∀ x ∈ encodeL s, xmlChar x = true := by
+  intro x hx
+  simp only [encodeL, List.mem_flatMap] at hx
+  obtain ⟨c, _, hxc⟩ := hx
+  by_cases hc : c = '-'
+  · subst hc
+    have e : encodeChar '-' = ['-'] := by decide
+    rw [e] at hxc; simp at hxc; subst hxc; decide
+  · exact ((encodeChar_safe c hc).2 x hxc).1
+
+theorem commentText_ok (s : Str) : cOk 0 (commentText s) = true ∧ ∀ x ∈ commentText s, xmlChar x = true := by
+  have hdd := hasDD_fixDD (encodeL s).length (encodeL s)
+  have h2 : ok2 0 (fixDD ((encodeL s).length + 2) (encodeL s)) = true := by rw [ok2_hasDD, hdd]; rfl
+  have hx : ∀ x ∈ fixDD ((encodeL s).length + 2) (encodeL s), xmlChar x = true := by
+    intro x hx
+    rcases mem_fixDD _ _ x hx with h | h
+    · exact encodeL_xml s x h
+    · subst h; decide
+  obtain ⟨a, b⟩ := cOk_of_ok2 _ 0 (by omega) h2
+  unfold commentText
+  simp only
+  split
+  · refine ⟨a, ?_⟩
+    intro x hx'
+    simp only [List.mem_append, List.mem_singleton] at hx'
+    rcases hx' with h | h
+    · exact hx x h
+    · subst h; decide
+  · rename_i he
+    refine ⟨b ?_, hx⟩
+    split
+    · rfl
+    · simpa using he
+
+theorem run_comment_text (u acc : Str) (d : Nat) (hd : d ≤ 1) (stk : List Str) (rd : Bool) (evs : List Event)
+    (h : cOk d u = true) (hx : ∀ x ∈ u, xmlChar x = true) :
+    ∃ acc', runM ⟨.comment acc d, stk, rd, evs⟩ u = some ⟨.comment acc' 0, stk, rd, evs⟩ := by
+  induction u generalizing acc d with
+  | nil => simp [cOk] at h; subst h; exact ⟨acc, rfl⟩
+  | cons c r ih =>
+    have hxc := hx c (by simp)
+    have hxr : ∀ x ∈ r, xmlChar x = true := fun x hm => hx x (by simp [hm])
     by_cases hc : c = '-'
     · subst hc
       simp [cOk] at h
       obtain ⟨rfl, h⟩ := h
-      have e : encodeChar '-' = ['-'] := by decide
       have : runM ⟨.comment acc 0, stk, rd, evs⟩ ['-'] = some ⟨.comment acc 1, stk, rd, evs⟩ := rfl
-      obtain ⟨a', ha⟩ := ih acc 1 (by omega) h
-      exact ⟨a', by rw [e, runM_append_of this]; exact ha⟩
+      obtain ⟨a', ha⟩ := ih acc 1 (by omega) h hxr
+      exact ⟨a', by rw [show '-' :: r = ['-'] ++ r from rfl, runM_append_of this]; exact ha⟩
     · simp [cOk, hc] at h
-      obtain ⟨hne, hsafe⟩ := encodeChar_safe c hc
-      obtain ⟨a1, h1⟩ := run_comment_safe (encodeChar c) acc d hd stk rd evs hne hsafe
-      obtain ⟨a', ha⟩ := ih a1 0 (by omega) h
-      exact ⟨a', by rw [runM_append_of h1]; exact ha⟩
+      have hd' : d = 0 ∨ d = 1 := by omega
+      rcases hd' with rfl | rfl
+      · have : runM ⟨.comment acc 0, stk, rd, evs⟩ [c] = some ⟨.comment (c :: acc) 0, stk, rd, evs⟩ := by
+          simp [runM, step, hxc, hc]
+        obtain ⟨a', ha⟩ := ih (c :: acc) 0 (by omega) h hxr
+        exact ⟨a', by rw [show c :: r = [c] ++ r from rfl, runM_append_of this]; exact ha⟩
+      · have : runM ⟨.comment acc 1, stk, rd, evs⟩ [c] = some ⟨.comment (c :: '-' :: acc) 0, stk, rd, evs⟩ := by
+          simp [runM, step, hxc, hc]
+        obtain ⟨a', ha⟩ := ih (c :: '-' :: acc) 0 (by omega) h hxr
+        exact ⟨a', by rw [show c :: r = [c] ++ r from rfl, runM_append_of this]; exact ha⟩
 
-/-- `<!--text-->` from content -/
-theorem run_comment (s : Str) (hs : commentOk s = true) (stk : List Str) (rd : Bool) (evs : List Event) :
-    ∃ evs', runM ⟨.content, stk, rd, evs⟩ (['<', '!', '-', '-'] ++ encodeL s ++ ['-', '-', '>']) = some ⟨.content, stk, rd, evs'⟩ := by
+/-- `<!--text-->` from content: the comment `XmlStream.comment` writes is accepted, whatever the string -/
+theorem run_comment (s : Str) (stk : List Str) (rd : Bool) (evs : List Event) :
+    ∃ evs', runM ⟨.content, stk, rd, evs⟩ (['<', '!', '-', '-'] ++ commentText s ++ ['-', '-', '>']) = some ⟨.content, stk, rd, evs'⟩ := by
   have e1 : runM ⟨.content, stk, rd, evs⟩ ['<', '!', '-', '-'] = some ⟨.comment [] 0, stk, rd, evs⟩ := rfl
-  obtain ⟨a', ha⟩ := run_comment_enc s [] 0 (by omega) stk rd evs hs
+  obtain ⟨hok, hx⟩ := commentText_ok s
+  obtain ⟨a', ha⟩ := run_comment_text (commentText s) [] 0 (by omega) stk rd evs hok hx
   refine ⟨.comment a'.reverse :: evs, ?_⟩
   rw [List.append_assoc, runM_append_of e1, runM_append_of ha]
   rfl
@@ -328,7 +557,7 @@ def OpOk : Op → Prop
   | .start n as => validName n = true ∧ (∀ kv ∈ as, validName kv.1 = true ∧ ∀ c ∈ kv.2, xmlChar c = true) ∧ (as.map (·.1)).Nodup
   | .chars s => ∀ c ∈ s, xmlChar c = true
   | .literal s => ∀ c ∈ s, plainChar c = true
-  | .comment s => commentOk s = true
+  | .comment _ => True
   | .stop _ => True
   | .spacePreserve => True
   | .pi _ => False
@@ -550,12 +779,12 @@ theorem sim_step {w w' : WState} {p : PState} {op : Op} {chunk : Str} (h : Inv w
       obtain ⟨p', r, i, rd, l⟩ := sim_text h hf s (fun a stk rd evs => ⟨_, run_plain s hok a stk rd evs⟩)
       exact ⟨p', r, i, by simp [rd], by simp [l], by simp⟩
   | comment s =>
-    have hs' : Except.ok (w.closeIfOpen.1, w.closeIfOpen.2 ++ ['<', '!', '-', '-'] ++ encodeL s ++ ['-', '-', '>']) = Except.ok (w', chunk) := hs
+    have hs' : Except.ok (w.closeIfOpen.1, w.closeIfOpen.2 ++ ['<', '!', '-', '-'] ++ commentText s ++ ['-', '-', '>']) = Except.ok (w', chunk) := hs
     cases hs'
     obtain ⟨p1, r1, i1, rd1, m1, s1, w1e⟩ := sim_close h
     obtain ⟨mode1, stk1, rdd, evs1⟩ := p1
     simp only at m1 s1 rd1; subst m1
-    obtain ⟨evs', r2⟩ := run_comment s hok stk1 rdd evs1
+    obtain ⟨evs', r2⟩ := run_comment s stk1 rdd evs1
     refine ⟨⟨.content, stk1, rdd, evs'⟩, ?_, ?_, by simp [rd1], by simp [w1e], by simp⟩
     · rw [List.append_assoc, List.append_assoc, runM_append_of r1]
       simpa [List.append_assoc] using r2
